@@ -69,6 +69,8 @@ pub struct FdChild {
     pub edge_pending: bool,
     /// dispatch in which the harness last changed this fd's readiness from inside a callback
     pub modified_at: u64,
+    /// dispatch in which this fd was last (re)registered from inside a callback
+    pub rereg_at: u64,
     pub cbs: u64,
     /// composite child wrapped in a TransientSource: its state, and the change its own post action asked for
     pub child: ChildSt,
